@@ -483,6 +483,13 @@ def rule_translation(rep: Report, repo: Repo, which=("main", "nonhermitian", "do
                             okd = term not in inputs and term not in prog.outputs
                             if not okd:
                                 rep.fail(RULE, f"{pname}::{sname} deletes `{term}` which is an input or an output", "", loc)
+                            # a pinned zeroth-order value (start = ...) is not recomputable by the eval: it may only be
+                            # deleted from a series whose own eval never runs at order zero (pinned on every block)
+                            tgt = prog.series.get(term)
+                            if tgt is not None and tgt.start is not None and s.start in (None, 1):
+                                rep.fail(RULE, f"{pname}::{sname} may delete the pinned zeroth-order data of `{term}`",
+                                         f"`{sname}` (start = {s.start!r}) is evaluated at order zero on some blocks and deletes `{term}` "
+                                         f"(start = {tgt.start!r}); the deleted start value would be recomputed by the eval and differ", loc)
     rep.count("programs", programs)
     rep.count("disagreements_checked", checked)
     rep.floor(RULE, "compiled (series, class, flags) cases compared", checked, 100)
